@@ -873,6 +873,14 @@ pub fn shard_run_grammar(prop: &str, tier: &str, seed: u64, replay_case: Option<
             return out;
         }
     }
+    // ---- conditional and range requests on the download routes
+    if prop == "C20" && replay_case.map(|c| c == 70_000_000).unwrap_or(shard.k == (5 % shard.n)) {
+        if let Some(f) = conditional_download_part("C20", seed, &mut cov) {
+            out.found.push(f);
+            out.cov = cov;
+            return out;
+        }
+    }
     // C20 also rides on protocol histories (all outcome kinds through the handlers)
     if prop == "C20" && replay_case.is_none() {
         let n_hist = if thorough { 600 } else { 120 };
@@ -913,7 +921,7 @@ pub fn finalize_grammar(prop: &str, tier: &str, out: ShardOut, is_replay: bool) 
     let rule = if prop == "C15" {
         "grammar product route x method x client-id form x path-id form x content-type form x body class (dull corners sampled), executed in-process against servers holding 3 clients with chains and snapshots on both backends; each request is classified must-refuse / must-serve / ambiguous from the statement; universal rules: never 5xx/panic, stored state (full dump) changes only on a 200 POST to an add route; must-refuse => 4xx and unchanged state; bodies of limit-1, limit (one chunk, 1 MiB chunks) accepted and read back, limit+1 (one chunk, many chunks, limit then 1 byte) refused; uploads whose body transfer breaks off after 0/1/2/all chunks (known and never-seen clients) must be refused and change nothing; chunked uploads of 4 GiB on both upload routes to the real executable running under a 3 GiB address-space limit (refused or cut off, the process stays alive and serves, nothing stored). distinct_nontrivial = distinct (route, method, class, status) plus response tallies."
     } else {
-        "every response produced by the grammar run (all routes, methods, refusals, unknown routes), by protocol histories through the handlers (200/404/409/410) and by requests against a storage that fails on purpose (500) is inspected by a tap in the HTTP client layer: Cache-Control must contain the no-store directive. distinct_nontrivial = distinct (route class, method, status) triples observed."
+        "every response produced by the grammar run (all routes, methods, refusals, unknown routes), by protocol histories through the handlers (200/404/409/410) and by requests against a storage that fails on purpose (500) is inspected by a tap in the HTTP client layer: Cache-Control must contain the no-store directive; so must every answer to conditional and range requests (If-None-Match with the version id quoted / weak / in a list / `*`, If-Match, If-(Un)Modified-Since, Range in all forms; GET and HEAD) on both download routes for clients that have versions and a snapshot. distinct_nontrivial = distinct (route class, method, status) triples observed."
     };
     let coverage = json!({
         "evaluations": cov.evaluations,
@@ -924,13 +932,13 @@ pub fn finalize_grammar(prop: &str, tier: &str, out: ShardOut, is_replay: bool) 
         "statuses_observed": statuses.iter().cloned().collect::<Vec<_>>(),
         "counters": cov.counters,
         "situations_top": top.iter().take(50).map(|(k, v)| json!({"situation": k, "n": v})).collect::<Vec<_>>(),
-        "process_level_situations": cov.situations.iter().filter(|(k, _)| k.starts_with("memory-limited-executable|") || k.starts_with("stalled-oversize|") || k.starts_with("slow-storage|")).map(|(k, v)| json!({"situation": k, "n": v})).collect::<Vec<_>>(),
+        "process_level_situations": cov.situations.iter().filter(|(k, _)| k.starts_with("memory-limited-executable|") || k.starts_with("stalled-oversize|") || k.starts_with("slow-storage|") || k.starts_with("conditional|")).map(|(k, v)| json!({"situation": k, "n": v})).collect::<Vec<_>>(),
     });
     let mut required: Vec<&str> = vec!["status=200", "status=400", "status=404"];
     if prop == "C15" {
         required.extend(["broken-body:AddVersion:error-after-1-chunk", "broken-body:AddSnapshot:error-after-2-chunks", "large:AddVersion:limit/one-chunk:status=200", "large:AddVersion:limit+1/one-chunk:status=400", "large:AddSnapshot:limit+1/limit-then-1:status=400", "MustRefuse", "MustServe", "Ambiguous", "memory-limited-executable|add-snapshot", "memory-limited-executable|add-version"]);
     } else {
-        required.extend(["|409", "|410", "|500", "|403", "unknown-route|"]);
+        required.extend(["|409", "|410", "|500", "|403", "unknown-route|", "conditional|snapshot|GET|If-None-Match", "conditional|get-child-version|GET|Range", "conditional|snapshot|HEAD|If-Modified-Since"]);
     }
     let verdict = if !out.found.is_empty() {
         Verdict::Violated(out.found)
@@ -1210,6 +1218,86 @@ pub fn shard_run_c16(tier: &str, seed: u64, replay_case: Option<usize>, shard: S
                     }
                 }
             }
+            // ---- other spellings of the same requests, sent by clients that are not on the list:
+            // a percent-encoded character anywhere in the route (the router decodes it), and several
+            // client-id headers or values of which one names a listed client. Whatever the server
+            // makes of them, nothing may be read or written on behalf of an unlisted client id, no
+            // stored state may change, and the answer is a refusal.
+            if list_kind >= 2 && replay_case.map(|c| c % 1000 == 999).unwrap_or(true) {
+                let listed_id = a;
+                for endpoint in 0..4usize {
+                    let base = c16_request(&fx, endpoint, &unlisted_data.to_string(), 1, Validity::WellFormed, false);
+                    let mut variants: Vec<(&'static str, HttpReq)> = vec![];
+                    let path = base.path.clone();
+                    for (i, ch) in path.char_indices() {
+                        if i == 0 || !(ch.is_ascii_alphanumeric() || ch == '-') {
+                            continue;
+                        }
+                        // every position of the route words, every fifth of the id
+                        let in_id = endpoint != 3 && i > path.rfind('/').unwrap_or(0);
+                        if in_id && i % 5 != 0 {
+                            continue;
+                        }
+                        let enc = if i % 2 == 0 { format!("%{:02X}", ch as u8) } else { format!("%{:02x}", ch as u8) };
+                        let mut r = base.clone();
+                        r.path = format!("{}{}{}", &path[..i], enc, &path[i + 1..]);
+                        variants.push(("percent-encoded-route-character", r));
+                    }
+                    let (u, l) = (unlisted_data.to_string(), listed_id.to_string());
+                    for (label, vals) in [
+                        ("two-client-id-headers:unlisted-first", vec![u.clone(), l.clone()]),
+                        ("two-client-id-headers:unlisted-last", vec![l.clone(), u.clone()]),
+                        ("folded-client-id-header:unlisted-first", vec![format!("{u}, {l}")]),
+                        ("folded-client-id-header:unlisted-last", vec![format!("{l},{u}")]),
+                        ("three-client-id-headers", vec![unknown.to_string(), l.clone(), u.clone()]),
+                    ] {
+                        let mut r = base.clone();
+                        r.headers.retain(|(k, _)| k != "X-Client-Id");
+                        for v in vals {
+                            r.headers.push(("X-Client-Id".to_string(), v.into_bytes()));
+                        }
+                        variants.push((label, r));
+                    }
+                    for (label, req) in variants {
+                        fx.hook.log.take();
+                        let before = fx.dump();
+                        let resp = fx.subj.http(&req);
+                        let events = fx.hook.log.take();
+                        let after = fx.dump();
+                        if resp.failure.as_deref() == Some("not expressible in-process") {
+                            continue;
+                        }
+                        cov.evaluations += 1;
+                        out.executed += 1;
+                        let for_unlisted = events.iter().filter(|e| e.client == unlisted_data || e.client == unknown).count();
+                        let only_unlisted_named = !label.contains("client-id-header");
+                        cov.hit(format!("list={}|ep={}|{label}|status={}|access-for-unlisted={}", list_kind, endpoint, resp.status, for_unlisted.min(1)));
+                        let ctx = format!("[{} list={}] {}", fx.subj.kind.name(), if list_kind == 2 { "one" } else { "many" }, req.describe());
+                        let mut bad = None;
+                        if resp.failure.is_some() || resp.status >= 500 {
+                            bad = Some(format!("{ctx}: server failed: {}", resp.describe()));
+                        } else if for_unlisted > 0 {
+                            bad = Some(format!("{ctx}: answered {} after {for_unlisted} storage accesses on behalf of a client id that is not on the allow-list", resp.status));
+                        } else if before != after && (only_unlisted_named || before.diff(&after).contains(&u)) {
+                            bad = Some(format!("{ctx}: answered {}, and stored state changed: {}", resp.status, before.diff(&after)));
+                        } else if only_unlisted_named && !(400..500).contains(&resp.status) {
+                            bad = Some(format!("{ctx}: the only client id named is not on the allow-list but the request was answered {}", resp.status));
+                        }
+                        if let Some(m) = bad {
+                            out.found.push(found("C16", m, json!({"origin": "c16-spellings", "case": case * 1000 + 999})));
+                            out.cov = cov;
+                            return out;
+                        }
+                        // a request served under the listed id may have appended to its chain
+                        if resp.status == 200 && endpoint == 0 {
+                            if let Some(v) = resp.header("X-Version-Id").and_then(|s| Uuid::parse_str(s).ok()) {
+                                fx.chains[0].push(v);
+                                fx.ids.push(v);
+                            }
+                        }
+                    }
+                }
+            }
         }
     }
     // the real executable with an allow-list, at every log level: listed clients served, others refused
@@ -1407,6 +1495,103 @@ fn socket_sample(prop: &str, seed: u64, n: usize, grams: &[Gram], cov: &mut Cov,
             let stored = read_state() != state_before;
             if (resp.failure.is_none() && !(400..500).contains(&resp.status)) || stored {
                 return Some(found("C15", format!("a {route} upload declared one byte above the 100 MiB limit that paused 10.5 s after its first kilobyte was answered {} (what the server serves for it afterwards changed: {stored})", resp.describe()), json!({"origin": "stalled-oversize", "case": 0})));
+            }
+        }
+    }
+    None
+}
+
+/// Conditional and range requests (legal HTTP a caching proxy or a resuming downloader sends) on the
+/// two download routes, for clients that have versions and a snapshot. C20: whatever is answered
+/// forbids caching. C06: a 200 carries the whole payload; a 206 carries exactly the requested range
+/// of the uploaded bytes and says so (`Content-Range`); 304 / 412 / 416 carry no payload and are
+/// not judged.
+pub fn conditional_download_part(prop: &str, seed: u64, cov: &mut Cov) -> Option<Found> {
+    for backend in [Backend::Mem, Backend::Sqlite] {
+        let mut fx = match Fixture::new(backend, seed ^ 0xC04D, None) {
+            Ok(f) => f,
+            Err(_) => return None,
+        };
+        for c in 0..3usize {
+            let k = fx.clients[c].to_string();
+            let n = fx.chains[c].len();
+            let snap_v = fx.chains[c][n - 2];
+            let snap_body = vec![0x5au8; 33 + c];
+            // the version whose parent is chain[n-3] (or the first one)
+            let (par, vi) = if n >= 3 { (fx.chains[c][n - 3], n - 2) } else { (fx.ids[0], 0) };
+            let ver_v = fx.chains[c][vi];
+            let ver_body: Vec<u8> = (0..(10 + vi * 7)).map(|x| (x as u8).wrapping_mul(31).wrapping_add(c as u8)).collect();
+            for (route, path, vid, full) in [("snapshot", "/v1/client/snapshot".to_string(), snap_v, snap_body.clone()), ("get-child-version", format!("/v1/client/get-child-version/{par}"), ver_v, ver_body.clone())] {
+                let len = full.len() as u64;
+                let conds: Vec<(&str, String, Option<(u64, u64)>)> = vec![
+                    ("If-None-Match", "*".into(), None),
+                    ("If-None-Match", format!("\"{vid}\""), None),
+                    ("If-None-Match", format!("W/\"{vid}\""), None),
+                    ("If-None-Match", format!("\"x\", \"{vid}\""), None),
+                    ("If-None-Match", format!("{vid}"), None),
+                    ("If-Match", "\"something-else\"".into(), None),
+                    ("If-Modified-Since", "Sat, 01 Jan 2028 00:00:00 GMT".into(), None),
+                    ("If-Modified-Since", "Thu, 01 Jan 1970 00:00:00 GMT".into(), None),
+                    ("If-Unmodified-Since", "Thu, 01 Jan 1970 00:00:00 GMT".into(), None),
+                    ("Range", "bytes=0-0".into(), Some((0, 0))),
+                    ("Range", "bytes=3-7".into(), Some((3, 7))),
+                    ("Range", format!("bytes=0-{}", len - 1), Some((0, len - 1))),
+                    ("Range", format!("bytes=0-{len}"), Some((0, len - 1))),
+                    ("Range", "bytes=0-104857599".into(), Some((0, len - 1))),
+                    ("Range", format!("bytes={}-", len - 1), Some((len - 1, len - 1))),
+                    ("Range", "bytes=5-".into(), Some((5, len - 1))),
+                    ("Range", "bytes=-4".into(), Some((len - 4, len - 1))),
+                    ("Range", format!("bytes=-{}", len + 10), Some((0, len - 1))),
+                    ("Range", format!("bytes={len}-"), None),
+                    ("Range", "bytes=2-4,6-8".into(), None),
+                    ("Range", "lines=1-2".into(), None),
+                ];
+                for (hk, hv, range) in conds {
+                    for method in ["GET", "HEAD"] {
+                        let req = HttpReq::new(method, &path).header("X-Client-Id", &k).header(hk, &hv);
+                        let before = fx.dump();
+                        let resp = fx.subj.http(&req);
+                        cov.evaluations += 1;
+                        cov.hit(format!("conditional|{route}|{method}|{hk}|status={}", resp.status));
+                        let ctx = format!("[{}] {method} {route} with `{hk}: {hv}` (stored payload: {len} bytes) was answered {}", fx.subj.kind.name(), resp.describe());
+                        let rep = json!({"origin": "conditional", "case": 70_000_000});
+                        if resp.failure.is_some() || resp.status >= 500 {
+                            return Some(found(prop, format!("{ctx}: the server failed"), rep));
+                        }
+                        if prop == "C20" {
+                            if !resp.header("cache-control").map(|c| c.to_ascii_lowercase().contains("no-store")).unwrap_or(false) {
+                                return Some(found(prop, format!("{ctx}: the response does not forbid caching"), rep));
+                            }
+                            continue;
+                        }
+                        if fx.dump() != before {
+                            return Some(found(prop, format!("{ctx}: a download changed stored state"), rep));
+                        }
+                        if method == "HEAD" {
+                            continue;
+                        }
+                        match resp.status {
+                            200 => {
+                                if resp.body != full || resp.header("X-Version-Id") != Some(vid.to_string().as_str()) {
+                                    return Some(found(prop, format!("{ctx}: not the uploaded payload of {vid} (first difference at {:?})", crate::ops::first_diff(&resp.body, &full)), rep));
+                                }
+                            }
+                            206 => {
+                                let cr = resp.header("Content-Range").unwrap_or("").to_string();
+                                let parsed = cr.strip_prefix("bytes ").and_then(|r| r.split_once('/')).and_then(|(ab, t)| ab.split_once('-').map(|(a, b)| (a.parse::<u64>().ok(), b.parse::<u64>().ok(), t.parse::<u64>().ok())));
+                                match (parsed, range) {
+                                    (Some((Some(a), Some(b), Some(t))), Some((wa, wb))) => {
+                                        if t != len || a != wa || b != wb || a > b || b >= len || resp.body != full[a as usize..=b as usize] {
+                                            return Some(found(prop, format!("{ctx}: the requested range is bytes {wa}-{wb} of {len}; the response carries {} bytes and says `Content-Range: {cr}`", resp.body.len()), rep));
+                                        }
+                                    }
+                                    _ => return Some(found(prop, format!("{ctx}: a partial response without a usable Content-Range (`{cr}`), or for a range request that cannot be satisfied by one range"), rep)),
+                                }
+                            }
+                            _ => {}
+                        }
+                    }
+                }
             }
         }
     }
